@@ -441,7 +441,24 @@ def mon_c20(sess, sc):
     return bad
 
 
-MONITORS = {"alive": mon_alive, "protocol": mon_protocol, "wedge": mon_no_wedge, "c01": mon_c01, "c02": mon_c02, "c03": mon_c03,
+def mon_nonreader(sess, sc):
+    out = sess.client_out.get(1, b"")
+    reps = split_replies(out) or []
+    if not any(isinstance(c[0], int) and 100 <= c[0] < 200 for c in reps):
+        return [("non-reader", "other-session-starved", "client 1 asked `nodes` while client 0 (not reading, owed more than 1 MiB) was being served: no successful reply arrived: %r" % out[-300:])]
+    # the non-reader itself: when it starts reading again it gets the NEWEST megabyte of what it was owed (the oldest bytes were overwritten),
+    # so the reply to its last request before the stall ended is whole, and its next request (`nodes`) is answered right behind it
+    o0 = sess.client_out.get(0, b"")
+    j = o0.rfind(b"306 ")
+    if sess.alive_after_script and not sess.overrun and len(o0) > 1000000:
+        if j < 0:
+            return [("non-reader", "late-reply-lost", "client 0 read again after the stall and sent `nodes`: no 306 line arrived: %r" % o0[-200:])]
+        if not o0[:j].endswith(b"\r\npowerman> ") or not re.search(rb"\r\n1\d\d [^\r\n]*\r\npowerman> $", o0[:j]):
+            return [("non-reader", "newest-output-dropped", "client 0: the bytes in front of the reply to its last request are not the end of a whole reply + prompt (the newest output was dropped, not the oldest): ...%r" % o0[max(0, j - 120):j + 20])]
+    return []
+
+
+MONITORS = {"nonreader": mon_nonreader, "alive": mon_alive, "protocol": mon_protocol, "wedge": mon_no_wedge, "c01": mon_c01, "c02": mon_c02, "c03": mon_c03,
             "c10": mon_c10, "c12": mon_c12, "c20": mon_c20}
 
 
